@@ -348,8 +348,13 @@ theorem only_current_generation_receives (c : Cfg) (hr : Reachable c) (g : Nat) 
   simp only [enabled, Bool.and_eq_true] at h
   grind
 
-/-- a sender parked inside `Write`: at the hand-off (`loaded`) or awaiting the engine's report (`handed`) -/
-def parked (w : Sender) : Bool := w.pc = .loaded || w.pc = .handed
+/-- a sender inside `Write`: at the hand-off (`loaded`) or past it (`handed`) -/
+def inWrite (w : Sender) : Bool := w.pc = .loaded || w.pc = .handed
+
+/-- a sender parked inside `Write` WITHOUT an answer: at the hand-off, or awaiting the engine's report with `req.done` still empty.
+    (Since the repair c77bf45 the teardown branch of the result select first takes a report that is already in: a sender whose
+    report is in is not parked — its `result` step is enabled, see `answered_write_takes_result`.) -/
+def parked (w : Sender) : Bool := w.pc = .loaded || (w.pc = .handed && w.done.isNone)
 
 /-- **The teardown broadcast releases a parked Write**: the connection-closed branch of BOTH selects of `Write` is
     enabled exactly when the sender is parked there and the `genDone` of the bundle it loaded is closed ... -/
@@ -379,6 +384,7 @@ theorem stop_closes_genDone (c : Cfg) (g : Nat) (ht : (c.g g).ctxDone = true) :
   cases hs : (c.g g).stopped <;> cases hd : (c.g g).genDone <;>
     simp [run, step, enabled, apply, setG, upd, ht, hs, hd]
 
+set_option linter.unusedSimpArgs false in
 /-- a parked Write whose `genDone` is closed: its own two steps (the `genDone` branch, then `writeFrame` returning) complete it
     with connection-closed, free the write lock and count nothing -/
 theorem released_write_returns_closed (c : Cfg) (i g : Nat) (hp : parked (c.s i) = true) (hg : (c.s i).gs = some g)
@@ -386,10 +392,10 @@ theorem released_write_returns_closed (c : Cfg) (i g : Nat) (hp : parked (c.s i)
     let c' := run c [.bail i, .unlock i]
     (c'.s i).pc = .done ∧ ((c.s i).kind ≠ .async → (c'.s i).out = some .closed) ∧ (c'.g g).lock = none ∧
     (c'.g g).eng = (c.g g).eng ∧ c'.m.sent = c.m.sent ∧ c'.m.err = c.m.err ∧ c'.m.inflight = c.m.inflight ∧ c'.wire = c.wire := by
-  simp only [parked, Bool.or_eq_true, decide_eq_true_eq] at hp
-  cases hk : (c.s i).kind <;> rcases hp with hp | hp <;>
+  simp only [parked, Bool.or_eq_true, Bool.and_eq_true, decide_eq_true_eq] at hp
+  cases hk : (c.s i).kind <;> rcases hp with hp | ⟨hp, hn⟩ <;>
     simp [run, step, enabled, apply, setS, setG, upd, hp, hd, hk, hg, he, Sender.failWith, Sender.afterUnlock, WRes.outcome,
-      WRes.counted, b2n]
+      WRes.counted, b2n, *]
 
 /-- **From the start of the teardown, two steps of `Stop` and two own steps complete a parked Write with connection-closed**,
     whatever the engine does or does not do meanwhile (the engine's position is arbitrary and untouched): the seal and the
@@ -408,17 +414,35 @@ theorem teardown_releases_parked_write (c : Cfg) (i g : Nat) (hp : parked (c.s i
   simp only [hrun]
   refine ⟨b1, fun hk => b2 (by rw [a2]; exact hk), b3, by rw [b4, a3], by rw [b5, a5], by rw [b6, a5], by rw [b7, a5], by rw [b8, a6]⟩
 
+/-- a Write whose engine report is in takes it — also when the teardown broadcast is closed at the same moment (the repaired result
+    select): its two own steps return the engine's result, and a message whose every block was ACKed is counted -/
+theorem answered_write_takes_result (c : Cfg) (i : Nat) (r : WRes) (hp : (c.s i).pc = .handed) (hd : (c.s i).done = some r) :
+    enabled c (.result i) = true ∧ enabled c (.bail i) = false ∧
+    ((run c [.result i, .unlock i]).s i).wres = some r ∧
+    (run c [.result i, .unlock i]).m.sent = c.m.sent + b2n (r = .ok) := by
+  refine ⟨by simp [enabled, hp, hd], by simp [enabled, hp, hd], ?_, ?_⟩ <;>
+    cases hk : (c.s i).kind <;> cases r <;>
+      simp [run, step, enabled, apply, setS, setG, upd, hp, hd, hk, Sender.failWith, Sender.afterUnlock, b2n]
+
 /-- **a Write parked when its generation's `genDone` closes stays releasable for ever**: after any continuation (later
-    generations published, connected, used), as long as it is still parked its connection-closed branch is enabled -/
-theorem parked_write_released_across_generations (c : Cfg) (i g : Nat) (hp : parked (c.s i) = true) (hg : (c.s i).gs = some g)
-    (hd : (c.g g).genDone = true) (as : List Action) (hp' : parked ((run c as).s i) = true) :
-    enabled (run c as) (.bail i) = true := by
+    generations published, connected, used, the engine reporting after all), as long as it is still inside `Write` one of its
+    own steps is enabled: the connection-closed branch, or — if the engine's report has come in meanwhile — taking that report -/
+theorem parked_write_released_across_generations (c : Cfg) (i g : Nat) (hp : inWrite (c.s i) = true) (hg : (c.s i).gs = some g)
+    (hd : (c.g g).genDone = true) (as : List Action) (hp' : inWrite ((run c as).s i) = true) :
+    enabled (run c as) (.bail i) = true ∨ enabled (run c as) (.result i) = true := by
   have h7 : 7 ≤ (c.s i).pc.rank := by
-    simp only [parked, Bool.or_eq_true, decide_eq_true_eq] at hp
+    simp only [inWrite, Bool.or_eq_true, decide_eq_true_eq] at hp
     rcases hp with hp | hp <;> simp [hp, Pc.rank]
   have hgs := (sender_stable_run i as c).2.2 h7
-  rw [closed_branch_iff_own_genDone]
-  exact ⟨hp', g, by rw [hgs, hg], genDone_run g as c hd⟩
+  have hgd := genDone_run g as c hd
+  simp only [inWrite, Bool.or_eq_true, decide_eq_true_eq] at hp'
+  rw [hg] at hgs
+  cases hdn : ((run c as).s i).done with
+  | none => left; rcases hp' with h | h <;> simp [enabled, h, hgs, hgd, hdn]
+  | some r =>
+    rcases hp' with h | h
+    · left; simp [enabled, h, hgs, hgd]
+    · right; simp [enabled, h, hdn]
 
 /-- a sender queued on the write lock of a torn-down generation (behind a Write that was released): once the lock is free
     its own three steps complete it with connection-closed — it never reaches `Write` -/
